@@ -214,6 +214,8 @@ def write_replay(prop_id, case, violation, seed, extra=None):
         prop_id, seed, case.get("index", "x")))
     doc = {"property": prop_id, "seed": seed, "case": case,
            "expect": {"rule": violation["rule"], "msg": violation["msg"]}}
+    if sys.flags.optimize:
+        doc["opt"] = True
     if extra:
         doc.update(extra)
     with open(path, "w") as stream:
@@ -225,6 +227,12 @@ def replay(prop_id, path, quiet=False):
     P = load_property(prop_id)
     with open(path) as stream:
         doc = json.load(stream)
+    if doc.get("opt") and not sys.flags.optimize and not os.environ.get("VERIF_REEXEC"):
+        # found under `python -O`: replayed under `python -O`
+        env = dict(os.environ, VERIF_REEXEC="1")
+        cmd = [sys.executable, "-O", "-m", "usimdst.cli", prop_id, "--replay", path] + \
+            (["--quiet"] if quiet else [])
+        return subprocess.run(cmd, cwd=VERIF, env=env).returncode
     wanted = doc.get("hashseed")
     if wanted is not None and os.environ.get("PYTHONHASHSEED") != wanted \
             and not os.environ.get("VERIF_REEXEC"):
@@ -261,7 +269,8 @@ def replay(prop_id, path, quiet=False):
 def confirm_fresh(prop_id, path, hashseed="4242"):
     """Re-run a replay file in a fresh interpreter with another hash seed."""
     env = dict(os.environ, PYTHONHASHSEED=hashseed, USIM_REPO=REPO, VERIF_REEXEC="1")
-    cmd = [sys.executable, "-m", "usimdst.cli", prop_id, "--replay", path, "--quiet"]
+    cmd = [sys.executable] + (["-O"] if sys.flags.optimize else []) + \
+        ["-m", "usimdst.cli", prop_id, "--replay", path, "--quiet"]
     try:
         proc = subprocess.run(cmd, cwd=VERIF, env=env, capture_output=True, text=True,
                               timeout=120)
@@ -400,6 +409,27 @@ def drive(prop_id, tier, seed):
         else:
             print("NOTE: listed finding %s did not show in this run" % finding["id"])
 
+    # a share of the budget runs the same check (generator, simulation, oracle) under `python -O`:
+    # assertion mode is one of the configurations the properties quantify over
+    opt_share = getattr(P, "OPT_SHARE", 0.1)
+    if opt_share and not sys.flags.optimize and not os.environ.get("VERIF_OPT_CHILD"):
+        code, lines, counts = run_opt_child(prop_id, tier, seed, opt_share, wall_cap)
+        for line in lines:
+            print(line)
+        total.stats["probe.python-O.cases"] = counts[0]
+        total.stats["probe.python-O.runs"] = counts[1]
+        total.runs += counts[1]
+        total.cases += counts[0]
+        if code == 1:
+            exit_code = 1
+            opt_replays = [line.split("replay=")[-1] for line in lines
+                           if line.startswith("VIOLATION")]
+            replays.extend(opt_replays)
+            new.extend((None, None, None) for _ in opt_replays)
+        elif code != 0 and exit_code == 0:
+            print("HARNESS-ERROR %s: the run under python -O ended with status %r" % (prop_id, code))
+            exit_code = 2
+        wall = wallclock.monotonic() - started
     total.nontrivial = len(nt_signatures)
     write_evidence(P, prop_id, tier, seed, total, signatures, states, samples, wall,
                    violations=len(new), known=dict(known_hit), replays=replays)
@@ -408,6 +438,39 @@ def drive(prop_id, tier, seed):
               prop_id, tier, total.cases, total.runs, len(signatures), len(states), wall,
               len(new), sum(known_hit.values())))
     return exit_code
+
+
+def run_opt_child(prop_id, tier, seed, share, wall_cap):
+    """Run `share` of this tier's budget in a `python -O` interpreter (own workers, own seed)."""
+    import re
+    import shutil
+    import tempfile
+    scratch = tempfile.mkdtemp(prefix="verif-opt.", dir="/tmp")
+    scale = float(os.environ.get("VERIF_SCALE", "1")) * share
+    env = dict(os.environ, VERIF_OPT_CHILD="1", VERIF_SCALE=repr(scale), USIM_REPO=REPO,
+               VERIF_EVIDENCE_DIR=scratch, VERIF_REPLAY_DIR=REPLAY_DIR)
+    cmd = [sys.executable, "-O", "-u", "-m", "usimdst.cli", prop_id, "--tier", tier,
+           "--seed", str(seed + 7919)]
+    try:
+        proc = subprocess.run(cmd, cwd=VERIF, env=env, capture_output=True, text=True,
+                              timeout=wall_cap + 300)
+        code, output = proc.returncode, proc.stdout
+        if code not in (0, 1):
+            output += "\n" + proc.stderr[-600:]
+    except subprocess.TimeoutExpired:
+        code, output = "timeout", ""
+    finally:
+        shutil.rmtree(scratch, ignore_errors=True)
+    lines, counts = [], (0, 0)
+    for line in output.splitlines():
+        if line.startswith(("VIOLATION", "  rule=", "HARNESS-ERROR")):
+            lines.append(line + ("   [under python -O]" if line.startswith("  rule=") else ""))
+        match = re.match(r"\w+ \w+: (\d+) cases, (\d+) runs", line)
+        if match:
+            counts = (int(match.group(1)), int(match.group(2)))
+    if code not in (0, 1):
+        lines.extend(output.splitlines()[-6:])
+    return code, lines, counts
 
 
 def write_evidence(P, prop_id, tier, seed, total, signatures, states, samples, wall,
